@@ -10,15 +10,16 @@ from vlib import ToolError
 # property -> plan.  mc: exhaustive configurations (module names);
 # gen: (generation module, quick count, thorough count, depth, drain)
 PLAN = {
-    "C01": {"mc": ["MC_Lease"], "gen": [("Gen_Mixed", 160, 4000, 25, True)]},
-    "C02": {"mc": ["MC_Lease"], "gen": [("Gen_Mixed", 160, 4000, 25, True)]},
-    "C03": {"mc": ["MC_Lease"], "gen": [("Gen_Mixed", 160, 4000, 25, True)]},
-    "C04": {"mc": ["MC_Lease"], "gen": [("Gen_Mixed", 160, 4000, 25, True)]},
-    "C05": {"mc": ["MC_Lease"], "gen": [("Gen_Mixed", 160, 4000, 25, True)]},
-    "C06": {"mc": ["MC_Lease"], "gen": [("Gen_Mixed", 160, 4000, 25, True)]},
-    "C13": {"mc": ["MC_Lease"], "gen": [("Gen_Mixed", 160, 4000, 25, True)]},
-    "C14": {"mc": ["MC_Lease"], "gen": [("Gen_Mixed", 160, 4000, 25, True)]},
-    "C15": {"mc": ["MC_Lease"], "gen": [("Gen_Mixed", 160, 4000, 25, True)]},
+    "C01": {"mc": ["MC_Lease"], "gen": [("Gen_Mixed", 120, 3000, 25, True), ("Gen_Prune", 60, 1500, 34, True), ("Gen_DeadLetter", 40, 1000, 32, True)]},
+    "C02": {"mc": ["MC_Lease"], "gen": [("Gen_Mixed", 160, 4000, 25, True), ("Gen_Names", 60, 1500, 32, True)]},
+    "C03": {"mc": ["MC_Lease"], "gen": [("Gen_Mixed", 120, 3000, 25, True), ("Gen_Ordered", 60, 1500, 30, True), ("Gen_DeadLetter", 60, 1500, 32, True)]},
+    "C04": {"mc": ["MC_Lease"], "gen": [("Gen_Mixed", 100, 2500, 25, True), ("Gen_Timing", 80, 2000, 30, True), ("Gen_DeadLetter", 40, 1000, 32, True)]},
+    "C05": {"mc": ["MC_Lease"], "gen": [("Gen_Ordered", 240, 6000, 30, True), ("Gen_Mixed", 80, 2000, 25, True)]},
+    "C06": {"mc": ["MC_Lease"], "gen": [("Gen_DeadLetter", 240, 6000, 32, True), ("Gen_Mixed", 60, 1500, 25, True)]},
+    "C12": {"mc": ["MC_Lease"], "gen": [("Gen_Names", 300, 6000, 32, False)]},
+    "C13": {"mc": ["MC_Lease"], "gen": [("Gen_Seek", 260, 6000, 32, True)]},
+    "C14": {"mc": ["MC_Lease"], "gen": [("Gen_Timing", 260, 6000, 30, True)]},
+    "C15": {"mc": ["MC_Lease"], "gen": [("Gen_Prune", 260, 6000, 34, True)]},
 }
 
 LEVEL_ASSUMPTIONS = [
@@ -69,6 +70,8 @@ def touches(prop, events):
         return any(e["op"] in ("SeekTime", "SeekSnap") and e["code"] == "OK" and e["post"]["del"] for e in events)
     if prop == "C14":
         return "Tick" in ops and any(e["op"] == "Pull" and e["code"] == "OK" for e in events)
+    if prop == "C12":
+        return any(e["op"] in ("Get", "List") or (e["op"].startswith("Create") and e["code"] == "AlreadyExists") for e in events)
     if prop == "C15":
         return any(e["op"].startswith("Prune") and e["post"]["del"] for e in events)
     return True
@@ -135,9 +138,9 @@ def _run(ctx, replay):
     if tool:
         raise ToolError("harness self-check clause failed: %s" % tool[:3])
     if os.environ.get("VERIF_DEBUG"):
-        c = collections.Counter((v["clause"], v["op"]) for v in val["viols"])
+        c = collections.Counter((v["clause"], v["op"], v["detail"]) for v in val["viols"])
         for k, n in c.most_common():
-            ex = next(v for v in val["viols"] if (v["clause"], v["op"]) == k)
+            ex = next(v for v in val["viols"] if (v["clause"], v["op"], v["detail"]) == k)
             print("DEBUG viol %s x%d e.g. %s step %d bad=%s" % (k, n, ex["tr"], ex["i"], ex["bad"]))
     mine = [v for v in val["viols"] if v["clause"][:3] == prop and set(v["bad"]) <= {prop}]
     new, hits = vlib.split_known(prop, mine)
